@@ -116,6 +116,7 @@ func extractScriptRows(c *Ctx, pa *provAnalysis, pk *Packager) []scriptRow {
 					continue
 				}
 				var slots []string
+				boundRow := false
 				src := provSet{}
 				var consts []string
 				// fields are stored either directly below the element or into a
@@ -150,6 +151,11 @@ func extractScriptRows(c *Ctx, pa *provAnalysis, pk *Packager) []scriptRow {
 							}
 							continue
 						}
+						if slot := boundRPMSlot(st.Val); slot != "" {
+							slots = append(slots, slot)
+							boundRow = true
+							continue
+						}
 						p := pa.Of(st.Val)
 						if len(scriptAtoms(p)) > 0 {
 							src.add(p)
@@ -159,7 +165,12 @@ func extractScriptRows(c *Ctx, pa *provAnalysis, pk *Packager) []scriptRow {
 					}
 				}
 				if len(slots) == 1 && len(scriptAtoms(src)) > 0 {
-					rows = append(rows, scriptRow{Slot: slots[0], Fields: scriptAtoms(src), Consts: consts, At: ia, Fn: fn, Kind: "literal"})
+					consts = append(consts, tableLoopConsts(pa, al)...)
+					kind := "literal"
+					if boundRow {
+						kind = "rpm"
+					}
+					rows = append(rows, scriptRow{Slot: slots[0], Fields: scriptAtoms(src), Consts: consts, At: ia, Fn: fn, Kind: kind})
 				}
 			}
 		})
@@ -493,6 +504,8 @@ func forwardBytes(c *Ctx, v ssa.Value, seen map[ssa.Value]bool, depth int) (sink
 				// a func-typed parameter that is always an rpmpack scriptlet setter
 				if cc.StaticCallee() == nil && !cc.IsInvoke() && forwardPA != nil && funcParamIsRPMSlot(forwardPA, cc.Value) && argIdx >= 0 {
 					sinks++
+				} else if cc.StaticCallee() == nil && !cc.IsInvoke() && argIdx >= 0 && tableFuncIsRPMSlot(cc.Value) {
+					sinks++
 				}
 				continue
 			}
@@ -687,4 +700,73 @@ func checkRpmpackScriptTags(c *Ctx, r *Report) {
 		}
 		r.Check(ok, "S5", "rpmpack."+name, "-", fmt.Sprintf("value %s, rpm tag number %d", got, v))
 	}
+}
+
+// tableLoopConsts: when a literal table is consumed by a loop, the constants
+// stored into struct fields in the loop body accompany every row (the mode
+// given to each script entry built from a {slot, path} table).
+func tableLoopConsts(pa *provAnalysis, arr *ssa.Alloc) []string {
+	var out []string
+	var elems []*ssa.IndexAddr
+	for _, ref := range *arr.Referrers() {
+		switch x := ref.(type) {
+		case *ssa.IndexAddr:
+			if _, isConst := x.Index.(*ssa.Const); !isConst {
+				elems = append(elems, x)
+			}
+		case *ssa.Slice:
+			for _, r2 := range *x.Referrers() {
+				if ia, ok := r2.(*ssa.IndexAddr); ok {
+					if _, isConst := ia.Index.(*ssa.Const); !isConst {
+						elems = append(elems, ia)
+					}
+				}
+			}
+		}
+	}
+	for _, ia := range elems {
+		forEachInstr(arr.Parent(), func(in ssa.Instruction) {
+			st, ok := in.(*ssa.Store)
+			if !ok || !(ia.Block() == st.Block() || ia.Block().Dominates(st.Block())) {
+				return
+			}
+			if _, isField := st.Addr.(*ssa.FieldAddr); !isField {
+				return
+			}
+			if _, isConst := st.Val.(*ssa.Const); isConst {
+				out = append(out, pa.Of(st.Val).consts()...)
+			}
+		})
+	}
+	return out
+}
+
+// tableFuncIsRPMSlot: the func value is a field of the element a loop visits
+// in a literal table every row of which binds that field to an rpmpack
+// scriptlet setter.
+func tableFuncIsRPMSlot(v ssa.Value) bool {
+	ia, field, ok := loopElemField(v)
+	if !ok {
+		return false
+	}
+	var arr *ssa.Alloc
+	switch x := ia.X.(type) {
+	case *ssa.Slice:
+		arr, _ = x.X.(*ssa.Alloc)
+	case *ssa.Alloc:
+		arr = x
+	}
+	if arr == nil {
+		return false
+	}
+	rows := tableRows(arr, ia)
+	if len(rows) == 0 {
+		return false
+	}
+	for _, row := range rows {
+		if row[field] == nil || boundRPMSlot(row[field]) == "" {
+			return false
+		}
+	}
+	return true
 }
